@@ -631,8 +631,18 @@ def binop(I, op, l, r, inplace=False):
     if issubclass(tl, str) and op is ast.Mult and issubclass(tr, int) and not sr:
         return mk([l] * r)
     num = (int, bool)
+    if op is ast.Mult and (sl != sr) and (isinstance(l, (str, list, tuple)) and isinstance(r, SymInt) or isinstance(r, (str, list, tuple)) and isinstance(l, SymInt)):
+        from . import numerics
+        if numerics.enabled(I):
+            seq, n = (l, r) if isinstance(r, SymInt) else (r, l)
+            numerics.repeat_charge(I, len(seq), iterm(n))
+            I.unsupported("sequence repeated a symbolic number of times (cost charged; the value is not modelled)")
     if issubclass(tl, num) and issubclass(tr, num):
         a, b = iterm(l), iterm(r)
+        if op is ast.Pow and sr:
+            from . import numerics
+            if numerics.enabled(I):
+                return numerics.pow_charge(I, a if isinstance(a, int) else None, b)
         if op is ast.Add:
             return mkint(a + b)
         if op is ast.Sub:
@@ -1401,6 +1411,11 @@ def _int(I, args, kwargs):
         return mkint(v.t)
     if isinstance(v, SymStr):
         return parse_int(I, v)
+    from . import numerics
+    if isinstance(v, numerics.OpaqueFloat):
+        return numerics.int_of_opaque_float(I, v)
+    if isinstance(v, numerics.OpaqueDecimal):
+        return v.__int__()
     return NotImplemented
 
 
@@ -1425,7 +1440,15 @@ def _float(I, args, kwargs):
             t = sstr.rendered_int_of(SymStr(v.segs[:-1]))
             if t is not None:
                 return SymFloat(t)
+        from . import numerics
+        if numerics.enabled(I):
+            return numerics.float_of_text(I, v)
         I.unsupported("float() of a symbolic string that is not a rendered integer")
+    from . import numerics
+    if isinstance(v, numerics.OpaqueFloat):
+        return v
+    if isinstance(v, numerics.OpaqueDecimal):
+        return numerics.OpaqueFloat(v.kind)
     return NotImplemented
 
 
@@ -2169,3 +2192,5 @@ def _install_six():
 
 
 _install_six()
+
+from . import numerics  # noqa: E402,F401  (registers the decimal.Decimal model)
